@@ -172,6 +172,31 @@ theorem C19_hist_stays_initialized (t : TableS) (ht : tblPending t = []) (h more
       have := hi n pre xs h1
       rw [h3]; exact List.mem_append_left _ this
 
+/-- … "unless a new initializer is registered": a committed transaction that registers a name and
+    does not mark it makes the table uninitialized again, with exactly that name added -/
+theorem C19_hist_new_registration_makes_pending (t : TableS) (ht : tblPending t = []) (h : List (List InitOp × Bool))
+    (n : String) (ops : List InitOp) (hreg : InitOp.reg n ∈ ops) (hnd : InitOp.done n ∉ ops) :
+    n ∈ tblPending (runInitHistory t (h ++ [(ops, true)])) ∧ tblInitialized (runInitHistory t (h ++ [(ops, true)])) = false := by
+  have hmem : n ∈ tblPending (runInitHistory t (h ++ [(ops, true)])) := by
+    rw [C19_hist_pending_exact t ht]
+    have happ : committedOps (h ++ [(ops, true)]) = committedOps h ++ ops := by
+      induction h with
+      | nil => simp [committedOps]
+      | cons x rest ih =>
+        obtain ⟨o, c⟩ := x
+        cases c <;> simp [committedOps, ih]
+    obtain ⟨pre, post, hsplit⟩ := List.append_of_mem hreg
+    refine ⟨committedOps h ++ pre, post, by rw [happ, hsplit]; simp, ?_⟩
+    intro hd
+    exact hnd (by rw [hsplit]; simp [hd])
+  refine ⟨hmem, ?_⟩
+  cases hi : tblInitialized (runInitHistory t (h ++ [(ops, true)])) with
+  | false => rfl
+  | true =>
+    have : tblPending (runInitHistory t (h ++ [(ops, true)])) = [] := by
+      simpa [tblInitialized, tblPending] using hi
+    rw [this] at hmem; simp at hmem
+
 /-! non-vacuity -/
 example :
     tblPending (runInitHistory {} [([.reg "a", .reg "b"], true), ([.done "a", .reg "ghost"], false), ([.done "b"], true), ([.reg "c"], true)])
